@@ -300,32 +300,41 @@ fn samefile_checks(dir: &PathBuf, doc: &str, mask: u8, uniq: usize) -> Result<us
     std::fs::create_dir_all(sub.join("d")).map_err(|e| ("machinery".to_string(), e.to_string()))?;
     let f = sub.join("f.xml");
     std::fs::write(&f, doc).map_err(|e| ("machinery".to_string(), e.to_string()))?;
-    let spellings: Vec<(u8, &str, String)> = vec![
-        (1, "same-path", "f.xml".into()),
-        (2, "dot-slash", "./f.xml".into()),
-        (4, "absolute", f.to_string_lossy().to_string()),
-        (8, "dotdot", "d/../f.xml".into()),
-        (16, "symlink", "sym.xml".into()),
-        (32, "hardlink", "hard.xml".into()),
+    // (bit, name, input spelling, output spelling)
+    let spellings: Vec<(u8, &str, &str, String)> = vec![
+        (1, "same-path", "f.xml", "f.xml".into()),
+        (2, "dot-slash", "f.xml", "./f.xml".into()),
+        (4, "absolute", "f.xml", f.to_string_lossy().to_string()),
+        (8, "dotdot", "f.xml", "d/../f.xml".into()),
+        (16, "symlink", "f.xml", "sym.xml".into()),
+        (32, "hardlink", "f.xml", "hard.xml".into()),
+        // combinations: each single mechanism (inode comparison, path canonicalisation) has to see through the other
+        (32, "symlink-to-hardlink", "f.xml", "symhard.xml".into()),
+        (32, "symlink-chain", "f.xml", "sym2.xml".into()),
+        (32, "input-symlink-output-hardlink", "sym.xml", "hard.xml".into()),
+        (32, "input-hardlink-output-symlink-in-dir", "hard.xml", "d/symup.xml".into()),
     ];
     let _ = std::os::unix::fs::symlink(&f, sub.join("sym.xml"));
     let _ = std::fs::hard_link(&f, sub.join("hard.xml"));
-    for (bit, name, out) in spellings {
+    let _ = std::os::unix::fs::symlink("hard.xml", sub.join("symhard.xml"));
+    let _ = std::os::unix::fs::symlink("sym.xml", sub.join("sym2.xml"));
+    let _ = std::os::unix::fs::symlink("../f.xml", sub.join("d").join("symup.xml"));
+    for (bit, name, inp, out) in spellings {
         // bit 32 does not fit the generated mask range 0..32: hard link rides on bit 16 as well
         let on = if bit == 32 { mask & 16 != 0 } else { mask & bit != 0 };
         if !on {
             continue;
         }
         n += 1;
-        let r = run_cli(&["f.xml".to_string(), "-o".to_string(), out.clone()], None, &sub, 60.0);
+        let r = run_cli(&[inp.to_string(), "-o".to_string(), out.clone()], None, &sub, 60.0);
         let now = std::fs::read(&f).unwrap_or_default();
         if now != doc.as_bytes() {
             let _ = std::fs::remove_dir_all(&sub);
-            return Err((format!("c07:samefile:{name}:input-overwritten"), format!("svgdx f.xml -o {out} changed the input file (exit {:?})", r.code)));
+            return Err((format!("c07:samefile:{name}:input-overwritten"), format!("svgdx {inp} -o {out} changed the input file (exit {:?})", r.code)));
         }
         if r.code == Some(0) {
             let _ = std::fs::remove_dir_all(&sub);
-            return Err((format!("c07:samefile:{name}:not-refused"), format!("svgdx f.xml -o {out} exited 0 although the output is the input file")));
+            return Err((format!("c07:samefile:{name}:not-refused"), format!("svgdx {inp} -o {out} exited 0 although the output is the input file")));
         }
     }
     let _ = std::fs::remove_dir_all(&sub);
@@ -339,7 +348,7 @@ impl Property for C07 {
     }
     fn rule(&self) -> String {
         "cases = histories: 5-40 requests (front-end, document, config) over a small per-history pool of documents (succeeding, failing early and failing only after output has been started, random-function, large, fragment) and configs, front-ends = transform_str, transform_stream, svgdx file->file, file->stdout, stdin->file, stdin->stdout, POST /api/transform on a server process that lives across cases; \
-         each history is executed sequentially and (half of them) again in concurrent batches of 8 (library threads, parallel CLI processes writing into one directory, simultaneous connections to the one server). File-writing requests find a pre-existing output file (20 B .. 200 KB); one in eight file-reading command requests names an input file that does not exist (a failed transform: exit != 0 with a message); the same-file part spells the output as the input (same path, ./, absolute, d/../, symlink, hard link). \
+         each history is executed sequentially and (half of them) again in concurrent batches of 8 (library threads, parallel CLI processes writing into one directory, simultaneous connections to the one server). File-writing requests find a pre-existing output file (20 B .. 200 KB); one in eight file-reading command requests names an input file that does not exist (a failed transform: exit != 0 with a message); the same-file part spells the output as the input (same path, ./, absolute, d/../, symlink, hard link, and their combinations: a symlink to a hard link, a chain of symlinks, input through a symlink with output through a hard link and the reverse). \
          Oracle: reference R(doc,cfg) = one transform in a fresh process; every request's observable result equals R (bytes; exit 0 / 200 image/svg+xml) or, where R fails, is reported as failure (Err; exit != 0 with a message, empty stdout, pre-existing output byte-identical and no file created; 400 text/plain); same-file: exit != 0 and input unchanged. \
          Non-trivial = the history has >= 1 failing and >= 1 succeeding request, >= 2 front-ends and >= 2 distinct (doc,cfg) pairs; distinct by hash of the case."
             .into()
